@@ -43,7 +43,6 @@ def parse_xs(s):
 
 
 CG_KINDS = ("sxp", "weibull", "gumbeltrunc", "gev")
-KNOWN_WEI = "C11:esl_wei_FitComplete:tau-above-1-unreachable"
 
 # ------------------------------------------------------------------------------------------------
 # log-likelihoods (python floats, fsum) used by the monitors
@@ -213,6 +212,12 @@ class C11(Prop):
             "hnew full=0 bmin=%s bmax=%s w=%s" % (d(0), d(100), d(10)), "hadd xs=" + d(35.0), "hsettail phi=" + d(0.0), "hdump", "hexpfit", "hweifit", "hsxpfit"]})
         c.append({"name": "regress-settailmass-empty", "sticky": 1, "ops": [
             "hnew full=0 bmin=%s bmax=%s w=%s" % (d(0), d(100), d(10)), "hsettailmass p=" + d(0.5), "hdump", "hexpfit"]})
+        # repaired in 935fded: Weibull fits with true tau 0.5 / 1.5 / 3 on the exact 300-point quantile grid must recover (lambda, tau)
+        for tau in (0.5, 1.5, 3.0):
+            g = grid("weibull", 300, 5.0, 0.01, tau)
+            c.append({"name": "regress-weibull-grid-tau%g" % tau, "sticky": 1,
+                      "meta": {"law": "weibull", "mu": 5.0, "lambda": 0.01, "tau": tau, "src": "grid", "mod": "none"},
+                      "ops": ["data xs=" + ",".join(d(x) for x in g), "fit kind=weibull"]})
         c.append({"name": "regress-fitcensored-infinite-variance", "sticky": 1, "meta": {"law": "none", "mod": "degenerate"}, "ops": [
             "data xs=" + ",".join(d(x) for x in [1e160, -1e160, 1.0]), "fit kind=gumbelcens z=0 a=" + d(-2e160), "fit kind=gumbel"]})
         # repaired in bad2f4e (brent() on a NaN interval): must answer a documented failure status, not hang
@@ -782,8 +787,7 @@ class C11(Prop):
                         return "%s fit (n=%d): logL%r=%r < logL%r=%r" % (kind, n, tuple(p0), base, tuple(q), v)
             if kind == "weibull" and meta.get("law") == "weibull" and meta.get("src") == "grid" and meta.get("mod") == "none" and n >= 300:
                 if abs(p0[0] / meta["lambda"] - 1) > 0.2 or abs(p0[1] / meta["tau"] - 1) > 0.2:
-                    return ("weibull fit on the exact quantile grid of (lambda=%r,tau=%r) recovered (%r,%r)" % (meta["lambda"], meta["tau"], p0[0], p0[1]),
-                            KNOWN_WEI if meta["tau"] > 1 and p0[1] <= 1.0 else None)
+                    return "weibull fit on the exact quantile grid of (lambda=%r,tau=%r) recovered (%r,%r)" % (meta["lambda"], meta["tau"], p0[0], p0[1])
         return None
 
     def extra_evidence(self, ctx):
